@@ -23,12 +23,12 @@ def mc_scenario(rep, tmp, name, maxlen=2, workers=8):
     return [s["o"] for s in r["states"]], r["acts"], mc
 
 
-def collect(rep, names, tier, *, act_filter=None, max_pairs=None, seed=0):
+def collect(rep, names, tier, *, act_filter=None, max_pairs=None, seed=0, fault_pairs=0, fault_stride=1):
     """Returns (events, judge result).  act_filter(act) -> bool restricts the action alphabet; max_pairs thins the
     (state, action) table deterministically per scenario when it is larger."""
     tmp = tla.scratch("sc-")
     try:
-        jobs, scn_tables = [], {}
+        jobs, scn_tables, fault_src = [], {}, {}
         from concurrent.futures import ThreadPoolExecutor
         with ThreadPoolExecutor(max_workers=4) as ex:
             mcs = list(ex.map(lambda n: mc_scenario(rep, tmp, n, maxlen=2, workers=4), names))
@@ -38,6 +38,7 @@ def collect(rep, names, tier, *, act_filter=None, max_pairs=None, seed=0):
             if act_filter:
                 acts = [a for a in acts if act_filter(a)]
             states = sorted(states, key=common.canon)
+            fault_src[name] = (states, acts)
             total = len(states) * len(acts)
             if max_pairs and total > max_pairs:
                 # keep every state, thin the actions per state with a stride that rotates with the state index
@@ -50,6 +51,22 @@ def collect(rep, names, tier, *, act_filter=None, max_pairs=None, seed=0):
         rep.mark("mc")
         events = [e for o in pipeline.pmap(D.run_table, jobs) for e in o]
         rep.mark("drive")
+        if fault_pairs:
+            # crash points: a deterministic sample of copy-on-write (state, action) pairs per scenario, each aborted at its executed library lines
+            import random
+            fjobs = []
+            for name, st_acts in fault_src.items():
+                rnd = random.Random(f"{seed}-{name}")
+                states, acts = st_acts
+                cow = [a for a in acts if a.get("inplace") is False and a.get("iff", True)]
+                pairs = [(rnd.choice(states), rnd.choice(cow)) for _ in range(fault_pairs)] if cow and states else []
+                for ch in common.chunks(pairs, 2):
+                    fjobs.append((name, ch, fault_stride))
+            fevents = [e for o in pipeline.pmap(D.run_faults, fjobs) for e in o]
+            rep.coverage["aborted_executions"] = len(fevents)
+            rep.coverage["fault_line_stride"] = fault_stride
+            events += fevents
+            rep.mark("faults")
         scnp = os.path.join(tmp, "scn.json")
         with open(scnp, "w") as f:
             json.dump(scn_tables, f)
